@@ -25,6 +25,7 @@ COMPILER_REPLAYS = {
     "u_scope": ["replay/c05/run.sh", "replay/c05/shadow_toplevel.sh"],
     "u_closenv": ["replay/c08/run.sh"],
     "u_liftty": ["replay/c08/nested_tuple.sh"],
+    "u_tastlit": ["replay/c10/run.sh"],
     "u_strlit": ["replay/c11/run.sh"],
     "u_dynvis": ["replay/c17/run.sh"],
     "u_dceblk": ["replay/c09/run.sh"],
